@@ -117,6 +117,16 @@ var props = []*prop{
 		Fuzz:        &fuzzCfg{Target: "FuzzC01", Seconds: 240},
 	},
 	{
+		ID: "C14", Pkg: "c14", Level: "exploration",
+		Technique:   "property-based testing (rapid) of each exported helper against independently re-stated textbook definitions, plus purity (call twice, arguments compared with a pristine copy)",
+		LevelText:   "One generated helper invocation per case over typed argument descriptors (all numeric kinds, strings incl. invalid UTF-8, nested containers, typed/untyped nils, every operation context, nil/default/custom registries); expected verdict from definitions written on the descriptors with exact rationals and Unicode simple case folding; verdict, purity and absence of panics checked. Exploration is the right level for an all-inputs claim about 13 small pure functions.",
+		LevelNote:   "Trusted: the definitions in checks/c14 (three-valued equality: comparisons the statement does not settle are executed but not judged and are counted as excluded), math/big, regexp, unicode tables, strfmt.Default as 'the registry'.",
+		Assumptions: trusted,
+		Builds:      plain,
+		Quick:       budget{Shards: 14, Checks: 30000, TimeoutS: 300},
+		Thorough:    budget{Shards: 14, Checks: 1000000, TimeoutS: 3000},
+	},
+	{
 		ID: "C20", Pkg: "c20", Level: "exploration",
 		Technique:   "stateful property-based testing (rapid) against an ordered-set + counter reference model",
 		LevelText:   "Generated call histories over validate.Result compared step by step with an independent ordered-set + counter model; every query and AsError checked on every result (incl. nil) after every step. Exploration: the property held on all generated histories, which is the right level for an all-histories claim with a cheap exact oracle.",
